@@ -35,8 +35,11 @@ P = {
          '(C03_sweep_release_panic_free). NOT proved: the quadratic event bound and absence of the index panic of connect_edges for all '
          'valid inputs; both are observed per run (budget hook, catch_unwind, child processes incl. staggered early-break scenarios).', '§7 C03', 'Coq: termination/container theorems; outcome correspondence release+debug, f64+f32; event-budget hook'),
  'C04': ('proof', 'Partial proof + per-run exact provenance check. Proved: the clamp (returned points lie in both segments\' boxes) for every '
-         'instance satisfying the order laws, exactness of every returned point at the exact instance (intersection_exact_all), ring-closing '
-         'glue. Per run: every result edge lies on an input edge and every vertex is an input vertex or an intersection of two input edges, '
+         'instance satisfying the order laws (the laws are proved for the binary64/binary32 models), exactness of every returned point at '
+         'the exact instance (intersection_exact_all), ring-closing glue; and NO INVENTED VERTICES for every instance, input and '
+         'configuration: every coordinate pair of every result ring is an input vertex or a point returned by intersection on segments '
+         'between such points (possibly after the one-ulp bump), as an invariant of fill_queue, the sweep loop and the contour assembly '
+         '(C04_output_points_allowed). NOT proved: that every result edge lies on an input edge, non-zero area, orientation. Per run: every result edge lies on an input edge and every vertex is an input vertex or an intersection of two input edges, '
          'exactly when the float run denotes the exact-arithmetic run of the model, within 1e-9 x magnitude otherwise (rational Python).',
          '§7 C04', 'Coq: intersection kernel theorems; exact-class link by running the model at Q; per-run provenance check'),
  'C05': ('proof', 'The partition law between the five results of one operand pair is decided for every point by the verified scene checker '
